@@ -43,7 +43,12 @@ type c10hcase struct {
 	Blocks int    `json:"blocks"`
 	World  string `json:"world,omitempty"`  // "epochs": survivable genesis states (Human/Suspended/Zombie/Newbie/Candidate), 14-minute epochs with consistent ceremony plans: three validations per history, non-validated identities delegate before their validation
 	Resets bool   `json:"resets,omitempty"` // the node rolls back (chain.ResetTo, as the fork resolver / integrity recovery do) across delegation-switch blocks and at random
-	Script string `json:"script,omitempty"` // "identityless-pool": one or two validated identities delegate to a funded address without identity record, which goes online; then the ceremonies decide
+	Script string `json:"script,omitempty"`
+	// script "invitee-pool": a pool whose owner is not validated. Variant 0: the owner stays an Invite, two validated
+	// identities delegate to it, it goes online, its inviter terminates it (KillInviteeTx); 1: the same with an activated
+	// Candidate; 2: the Candidate pool terminates its delegators one by one (KillDelegatorTx, pool becomes empty);
+	// 3: a validated pool owner goes online and terminates itself (KillTx)
+	Variant int `json:"variant,omitempty"` // "identityless-pool": one or two validated identities delegate to a funded address without identity record, which goes online; then the ceremonies decide
 }
 
 func c10hNat(a common.Address) uint32 { return binary.BigEndian.Uint32(a[:4]) }
@@ -310,6 +315,10 @@ func (x *c10hrun) offer(b int) {
 			send(0, "fund-extra", &types.Transaction{Type: types.SendTx, To: &to, Amount: chainfx.Dna(2000)})
 		}
 	}
+	if x.cs.Script == "invitee-pool" {
+		x.inviteePool(b, send)
+		return
+	}
 	if x.cs.Script == "identityless-pool" {
 		if b == 3 || b == 4 {
 			i := 1 + int(x.cs.Seed%2)*4 // user 1 (Verified) or user 5 (Verified)
@@ -406,6 +415,94 @@ func (x *c10hrun) offer(b int) {
 			to := w.Addrs[r.Intn(len(w.Addrs))]
 			send(i, "replenish", &types.Transaction{Type: types.ReplenishStakeTx, To: &to, Amount: chainfx.Dna(int64(1 + r.Intn(30)))})
 		}
+	}
+}
+
+// inviteePool drives the scripted scenario family (see c10hcase.Variant) by polling the node's state every block.
+func (x *c10hrun) inviteePool(b int, send func(i int, what string, tx *types.Transaction)) {
+	n, w := x.h.N, x.w
+	st, vc := n.App.State, n.App.ValidatorsCache
+	sendX := func(what string, tx *types.Transaction) {
+		if err := n.Pool.AddExternalTxs(validation.InboundTx, x.signExtra(1, tx)); err == nil {
+			x.c.Hit("offer-ok:" + what)
+		} else {
+			x.c.Hit("offer-rej:" + what + ":" + err.Error())
+		}
+	}
+	pending := func(a common.Address) bool { return len(n.Pool.GetPendingByAddress(a)) > 0 }
+	dels := []int{1, 3}
+	if x.cs.Variant == 3 {
+		// validated owner: user 9 (Human)
+		owner := w.Addrs[9]
+		if st.GetIdentityState(owner) == state.Killed {
+			return
+		}
+		for _, d := range dels {
+			if st.Delegatee(w.Addrs[d]) == nil && st.DelegationSwitch(w.Addrs[d]) == nil && !pending(w.Addrs[d]) && b >= 3 {
+				to := owner
+				send(d, "script:delegate-to-validated-owner", &types.Transaction{Type: types.DelegateTx, To: &to})
+			}
+		}
+		if vc.IsPool(owner) && vc.PoolSize(owner) >= 3 && !pending(owner) {
+			if !vc.IsOnlineIdentity(owner) {
+				if !st.HasStatusSwitchAddresses(owner) {
+					send(9, "script:owner-online", chainfx.OnlineTx(true))
+				}
+			} else {
+				send(9, "script:online-pool-owner-kills-itself", &types.Transaction{Type: types.KillTx})
+			}
+		}
+		return
+	}
+	X := x.xaddrs[1]
+	switch st.GetIdentityState(X) {
+	case state.Undefined:
+		if b >= 3 && !pending(w.Addrs[0]) {
+			to := X
+			send(0, "script:invite", &types.Transaction{Type: types.InviteTx, To: &to, Amount: chainfx.Dna(300)})
+		}
+		return
+	case state.Killed:
+		return
+	case state.Invite:
+		if x.cs.Variant != 0 {
+			if !pending(X) {
+				to := X
+				sendX("script:activate", &types.Transaction{Type: types.ActivationTx, To: &to, Payload: crypto.FromECDSAPub(&x.xkeys[1].PublicKey)})
+			}
+			return
+		}
+	}
+	// X is the intended pool owner (Invite for variant 0, Candidate otherwise)
+	for _, d := range dels {
+		if st.GetIdentityState(w.Addrs[d]).NewbieOrBetter() && st.Delegatee(w.Addrs[d]) == nil && st.DelegationSwitch(w.Addrs[d]) == nil && !pending(w.Addrs[d]) {
+			to := X
+			send(d, "script:delegate-to-invitee", &types.Transaction{Type: types.DelegateTx, To: &to})
+		}
+	}
+	if !vc.IsPool(X) || pending(X) {
+		return
+	}
+	if !vc.IsOnlineIdentity(X) {
+		if vc.PoolSize(X) >= 2 && !st.HasStatusSwitchAddresses(X) {
+			sendX("script:invitee-pool-online", chainfx.OnlineTx(true))
+		}
+		return
+	}
+	x.c.Hit("script:invitee-pool-is-online")
+	if x.cs.Variant == 2 {
+		for _, d := range dels {
+			if dd := st.Delegatee(w.Addrs[d]); dd != nil && *dd == X {
+				to := w.Addrs[d]
+				sendX("script:pool-kills-delegator", &types.Transaction{Type: types.KillDelegatorTx, To: &to})
+				return
+			}
+		}
+		return
+	}
+	if inv := st.GetInviter(X); inv != nil && inv.Address == w.Addrs[0] && !pending(w.Addrs[0]) {
+		to := X
+		send(0, "script:inviter-kills-online-invitee-pool", &types.Transaction{Type: types.KillInviteeTx, To: &to})
 	}
 }
 
@@ -616,6 +713,10 @@ func c10hOpts(cs c10hcase) chainfx.HistoryOpts {
 	}
 	if cs.Script == "identityless-pool" {
 		o.WithFlips, o.TxPerBlock = true, 1
+	}
+	if cs.Script == "invitee-pool" {
+		// no ceremony within the history (first ceremony in 2099); the scripted identities send no random transactions
+		return chainfx.HistoryOpts{Blocks: cs.Blocks, TxPerBlock: 1, Always: map[int]bool{1: true, 3: true, 9: true}}
 	}
 	return o
 }
@@ -843,14 +944,21 @@ func init() {
 			c.Rep.Evaluations = 1
 			return c10hRun(c, wrap.Replay)
 		}
-		n := c.Scale(5, 120)
+		n := c.Scale(7, 126)
 		c.Rep.Rule = "real single-node chains (chainfx: real mempool, ProposeBlock, AddBlock, attached ceremony, short epochs, StatusSwitchRange=DelegationSwitchRange=3) with 9-12 keyed identities of mixed status plus two funded addresses without identity record; per block up to 2 fixture txs + up to 3 registry-directed txs (delegate to identities / identity-less addresses, undelegate, online on/off by identities and by identity-less pools, kill-delegator, kill, replenish); after every block: node's incremental ValidatorsCache vs fresh Load, stored registry vs identity ledger; every stored identity diff replayed in the Lean model; distinct = distinct (seed, users, blocks)"
 		for i := 0; i < n; i++ {
 			cs := c10hcase{Seed: c.Seed*1000 + int64(i), Users: 9 + c.Rng.Intn(4), Blocks: 150}
 			if c.Tier == "thorough" {
 				cs.Blocks = 260
 			}
-			switch i % 5 {
+			switch i % 7 {
+			case 5, 6:
+				// both kill-invitee variants and one of the other two within one quick run
+				cs.Script, cs.Users, cs.Blocks = "invitee-pool", 10, 45
+				cs.Variant = int(c.Seed+int64(i/7)) % 2
+				if i%7 == 6 {
+					cs.Variant = 2 + int(c.Seed+int64(i/7))%2
+				}
 			case 4:
 				cs.Script, cs.Blocks = "identityless-pool", 90
 			case 1, 3:
